@@ -752,6 +752,13 @@ func TestVerifC01(t *testing.T) {
 			emitHist(cons, 4, res.hist.spec, res, "script-"+variant)
 		}
 	}
+	for _, cons := range []string{"chainedhotstuff", "simplehotstuff"} {
+		res, err := c01StaleLock(cons, 7)
+		if err != nil {
+			t.Fatalf("world: %v", err)
+		}
+		emitHist(cons, 4, res.hist.spec, res, "script-stale-lock-failed-fetch")
+	}
 	for _, cons := range []string{"chainedhotstuff", "simplehotstuff", "fasthotstuff"} {
 		res, err := c01CatchUp(cons, 7)
 		if err != nil {
@@ -1121,6 +1128,121 @@ func c01CatchUp(cons string, seed int64) (*c01Result, error) {
 		deliver(40)
 		if len(w.pending) == 0 {
 			timeouts(live)
+		}
+	}
+	return c01Finish(h, live, 0), nil
+}
+
+// c01StaleLock: the vote is cast although the block the lock should move to could not be fetched.
+// Replica 4 (Byzantine) leads every view. h2 misses views 1-2; it is then walked up to view 3 with
+// QC(b2) (one view per certificate), receives b3 (QC b2) and can fetch b2 but not b1 (lost
+// requests), so its commit rule cannot move the lock to b1 - and it votes for b3 anyway.
+// h1 alone sees b4 and commits b1. The Byzantine leader then forks from genesis (b2' in view 4):
+// h3 (never voted above view 2) and h2 (lock still genesis) vote for it, and three more views
+// commit b2' at h2 and h3 while h1 has committed b1.
+func c01StaleLock(cons string, seed int64) (*c01Result, error) {
+	spec := wSpec{consensus: cons, n: 4, byz: []hotstuff.ID{4}, seed: seed}
+	for i := 0; i < 20; i++ {
+		spec.leaders = append(spec.leaders, 4)
+	}
+	w, err := newWorld(spec)
+	if err != nil {
+		return nil, err
+	}
+	h := newC01Hist(w, spec)
+	B := w.nodes[NodeID{ReplicaID: 4}]
+	h1, h2, h3 := w.nodes[NodeID{ReplicaID: 1}], w.nodes[NodeID{ReplicaID: 2}], w.nodes[NodeID{ReplicaID: 3}]
+	live := []*wNode{h1, h2, h3}
+	for _, id := range w.order {
+		w.partition[id] = 0
+	}
+	flush := func() {
+		for guard := 0; len(w.pending) > 0 && guard < 10000; guard++ {
+			m := w.pending[0]
+			w.pending = w.pending[1:]
+			to := w.nodes[m.to]
+			if to.byz {
+				w.byzHandle(to, m.payload)
+				h.observe(nil)
+				continue
+			}
+			if p, ok := m.payload.(hotstuff.ProposeMsg); ok {
+				w.regProposal(&p)
+			}
+			to.eventLoop.AddEvent(m.payload)
+			w.drain(to)
+			h.observe(to)
+		}
+	}
+	k := 0
+	mk := func(view hotstuff.View, parent hotstuff.Hash, qc hotstuff.QuorumCert) *hotstuff.Block {
+		k++
+		b := hotstuff.NewBlock(parent, qc, &clientpb.Batch{Commands: []*clientpb.Command{{ClientID: 99, SequenceNumber: uint64(k), Data: []byte("byz")}}}, view, 4)
+		w.regBlock(b)
+		B.blockchain.Store(b)
+		return b
+	}
+	send := func(b *hotstuff.Block, to ...*wNode) {
+		for _, nd := range to {
+			w.byzSendTo(B, nd, hotstuff.ProposeMsg{ID: 4, Block: b})
+		}
+		flush()
+	}
+	newview := func(qc hotstuff.QuorumCert, to ...*wNode) {
+		for _, nd := range to {
+			w.byzSendTo(B, nd, hotstuff.NewViewMsg{ID: 4, SyncInfo: hotstuff.NewSyncInfoWith(qc), FromNetwork: true})
+		}
+		flush()
+	}
+	certify := func(b *hotstuff.Block) (hotstuff.QuorumCert, bool) {
+		if pc, err := B.auth.CreatePartialCert(b); err == nil {
+			B.votesSeen[b.Hash()] = append(B.votesSeen[b.Hash()], pc)
+		}
+		w.byzAssemble(B)
+		h.observe(nil)
+		for _, q := range w.qcs {
+			if q.BlockHash() == b.Hash() {
+				return q, true
+			}
+		}
+		return hotstuff.QuorumCert{}, false
+	}
+	gen := hotstuff.GetGenesis()
+	genQC := B.viewStates.HighQC()
+	// views 1, 2: h1, h3 and the leader certify b1, b2 (h2 sees nothing)
+	b1 := mk(1, gen.Hash(), genQC)
+	send(b1, h1, h3)
+	q1, ok1 := certify(b1)
+	b2 := mk(2, b1.Hash(), q1)
+	if ok1 {
+		send(b2, h1, h3)
+	}
+	q2, ok2 := certify(b2)
+	if ok1 && ok2 {
+		// h2 cannot obtain b1 (its requests for it are lost); it is walked up with QC(b2)
+		w.fetchDeny = func(req NodeID, x hotstuff.Hash) bool { return req == h2.id && x == b1.Hash() }
+		b3 := mk(3, b2.Hash(), q2)
+		newview(q2, h1, h2)
+		newview(q2, h2)
+		send(b3, h1, h2)
+		if q3, ok3 := certify(b3); ok3 {
+			// only h1 sees b4: it commits b1
+			b4 := mk(4, b3.Hash(), q3)
+			send(b4, h1)
+			// the fork from genesis for h2, h3
+			newview(q2, h3)
+			newview(q3, h3, h2)
+			f2 := mk(4, gen.Hash(), genQC)
+			send(f2, h2, h3)
+			parent, qc := f2, hotstuff.QuorumCert{}
+			var okf bool
+			qc, okf = certify(f2)
+			for v := 5; v <= 8 && okf; v++ {
+				nb := mk(hotstuff.View(v), parent.Hash(), qc)
+				send(nb, h2, h3)
+				qc, okf = certify(nb)
+				parent = nb
+			}
 		}
 	}
 	return c01Finish(h, live, 0), nil
